@@ -1,17 +1,22 @@
 //! C11 - per-peer sync state machine follows its diagram for every event order.
 //! Offline automaton conformance over observed (state-before, cause, state-after) triples.
 
-use std::collections::{BTreeMap, HashMap};
+use std::collections::{BTreeMap, HashMap, HashSet};
 
 use ckb_network::PeerIndex;
 use serde_json::{json, Value};
 
-use super::super::chain::Chain;
+use ckb_types::prelude::*;
+
+use crate::service::{ChainRpc, TransactionRpc};
+
+use super::super::chain::{lock_script, Chain};
+use super::super::refidx::{Registered, ST};
 use super::super::net::P;
 use super::super::out::{Out, RunCfg};
 use super::super::rng::Rng;
 use super::super::server::{self, LC};
-use super::super::world::{Hook, Label, NoHook, Outcome, Resp, World};
+use super::super::world::{Hook, Label, Outcome, Resp, World};
 use super::c01::{state_name, trusted_state};
 use super::common::*;
 
@@ -23,13 +28,54 @@ struct Snap {
     when_sent: Option<u64>,
     last_ts: Option<u64>,
     other_requests: bool,
+    /// outstanding GetBlocksProof / GetBlocks / GetTransactionsProof requests of the peer with the virtual time at which
+    /// the client handed them to the network (None = the send was not observed)
+    others: Vec<(&'static str, Option<u64>)>,
     prove: Option<Vec<u8>>,
 }
 
-fn snap(w: &World, id: PeerIndex) -> Snap {
+/// send times of the three "other" request kinds, observed at the network boundary: (peer session, kind) -> virtual ms
+#[derive(Default)]
+struct ReqTimes(HashMap<(PeerIndex, &'static str), u64>);
+
+fn other_kind(sent: &super::super::net::Sent) -> Option<&'static str> {
+    match P::of(sent.proto) {
+        Some(P::Lc) => match server::kind_of(P::Lc, &sent.data).as_str() {
+            "GetBlocksProof" => Some("GetBlocksProof"),
+            "GetTransactionsProof" => Some("GetTransactionsProof"),
+            _ => None,
+        },
+        Some(P::Sync) => match server::kind_of(P::Sync, &sent.data).as_str() {
+            "GetBlocks" => Some("GetBlocks"),
+            _ => None,
+        },
+        _ => None,
+    }
+}
+
+impl ReqTimes {
+    fn note(&mut self, sent: &super::super::net::Sent) {
+        if let Some(k) = other_kind(sent) {
+            self.0.insert((sent.peer, k), sent.at);
+        }
+    }
+    /// messages the client has sent but the scheduler has not routed yet
+    fn absorb_outbox(&mut self, w: &World) {
+        if let Some(c) = w.client.as_ref() {
+            let g = c.log.0.lock().unwrap();
+            for s in g.outbox.iter() {
+                if let Some(k) = other_kind(s) {
+                    self.0.insert((s.peer, k), s.at);
+                }
+            }
+        }
+    }
+}
+
+fn snap(w: &World, id: PeerIndex, times: &ReqTimes) -> Snap {
     let c = w.c();
     let name = state_name(w, id);
-    let mut s = Snap { name, when_sent: None, last_ts: None, other_requests: false, prove: None };
+    let mut s = Snap { name, when_sent: None, last_ts: None, other_requests: false, others: vec![], prove: None };
     if let Some(st) = c.peers.get_state(&id) {
         let txt = format!("{:#}", st);
         if let Some(p) = txt.find("when_sent: ") {
@@ -40,6 +86,11 @@ fn snap(w: &World, id: PeerIndex) -> Snap {
     }
     if let Some(p) = c.peers.get_peer(&id) {
         s.other_requests = p.get_blocks_proof_request().is_some() || p.get_blocks_request().is_some() || p.get_txs_proof_request().is_some();
+        for (kind, exists) in [("GetBlocksProof", p.get_blocks_proof_request().is_some()), ("GetBlocks", p.get_blocks_request().is_some()), ("GetTransactionsProof", p.get_txs_proof_request().is_some())] {
+            if exists {
+                s.others.push((kind, times.0.get(&(id, kind)).cloned()));
+            }
+        }
     }
     s.prove = trusted_state(w).0.get(&id.value()).cloned();
     s
@@ -111,19 +162,20 @@ struct Mon<'a> {
 }
 
 impl<'a> Mon<'a> {
-    fn snapshot_all(&mut self, w: &World) {
+    fn snapshot_all(&mut self, w: &World, times: &mut ReqTimes) {
         self.before.clear();
+        times.absorb_outbox(w);
         for (pi, p) in w.peers.iter().enumerate() {
-            self.before.insert(pi, snap(w, p.id));
+            self.before.insert(pi, snap(w, p.id, times));
         }
     }
-    fn judge(&mut self, w: &World, cause: &str, sender: Option<usize>, o: &Outcome, ids_before: &HashMap<usize, PeerIndex>) {
+    fn judge(&mut self, w: &World, cause: &str, sender: Option<usize>, o: &Outcome, ids_before: &HashMap<usize, PeerIndex>, times: &ReqTimes) {
         if w.client.is_none() || w.dead {
             return;
         }
         for (pi, b) in self.before.clone().iter() {
             let id = ids_before[pi];
-            let a = snap(w, id);
+            let a = snap(w, id, times);
             let removed = o.banned.iter().any(|(x, _)| *x == id) || o.disconnected.iter().any(|(x, _)| *x == id);
             let peer_cause = if Some(*pi) == sender || sender.is_none() { cause } else { "other-peers-event" };
             self.out.eval(1);
@@ -165,6 +217,25 @@ impl<'a> Mon<'a> {
     }
 }
 
+/// the peers' answers of some kinds are withheld (an unanswered request), per peer
+#[derive(Default)]
+struct Withhold {
+    kinds: HashMap<usize, HashSet<&'static str>>,
+    times: ReqTimes,
+}
+
+impl Hook for Withhold {
+    fn on_sent(&mut self, _w: &mut World, sent: &super::super::net::Sent) {
+        self.times.note(sent);
+    }
+    fn respond(&mut self, _w: &mut World, pi: usize, _sent: &super::super::net::Sent, honest: Vec<Resp>) -> Vec<Resp> {
+        match self.kinds.get(&pi) {
+            Some(set) if !set.is_empty() => honest.into_iter().filter(|r| !set.contains(server::kind_of(r.proto, &r.data).as_str())).collect(),
+            _ => honest,
+        }
+    }
+}
+
 pub fn run(cfg: &RunCfg, out: &Out) {
     for k in 0..cfg.budget {
         if out.time_up() {
@@ -183,36 +254,82 @@ fn scenario(seed: u64, k: u64, out: &Out) {
     let mut rng = Rng::new(seed);
     let (now, base_ts) = time_base();
     let mut params = gen_params(&mut rng, seed, base_ts);
-    params.tx_density = 0;
-    let len = rng.range(4, 60);
+    // "busy" scenarios: scripts registered on a chain with transactions and fetch_header / fetch_transaction calls, so that
+    // GetBlocksProof / GetBlocks / GetTransactionsProof requests exist, some of them never answered
+    let busy = rng.chance(1, 2);
+    params.tx_density = if busy { 80 } else { 0 };
+    let len = rng.range(if busy { 12 } else { 4 }, 60);
     let ccfg = gen_ccfg(&mut rng);
     let main = Chain::generate(params, len);
     let mut w = World::new(main, ccfg.clone(), seed, now);
     w.timer_fast = false;
+    if busy {
+        let regs: Registered = vec![(lock_script(0), ST::Lock, 0), (lock_script(1), ST::Lock, 0)];
+        set_scripts(&w, &regs, None);
+    }
+    let mut hk = Withhold::default();
     let net = HonestNet::new(0);
     let npeers = rng.range(1, 3) as usize;
     for _ in 0..npeers {
         w.add_peer(0, true);
     }
-    let desc = json!({"seed": seed, "scenario": k, "len": len, "last_n": ccfg.last_n, "peers": npeers});
+    let desc = json!({"seed": seed, "scenario": k, "len": len, "last_n": ccfg.last_n, "peers": npeers, "busy": busy});
     let mut mon = Mon { out, k, desc: desc.clone(), before: HashMap::new(), trace_edges: vec![], violated: false };
     let mut last_proof: HashMap<usize, Resp> = HashMap::new();
-    let steps = rng.range(8, 40);
+    let steps = if busy { rng.range(20, 90) } else { rng.range(8, 40) };
+    if busy && rng.chance(2, 3) {
+        // pipeline prelude (not judged by the automaton): connect and let the real timers run for a while, with one or two kinds of
+        // answers withheld by the peers - the client ends up with GetBlocksProof / GetBlocks / GetTransactionsProof requests that were
+        // sent at different times and are never answered; the judged random phase then meets their timeouts one by one
+        w.connect_all();
+        for pi in 0..w.peers.len() {
+            let set = hk.kinds.entry(pi).or_default();
+            for _ in 0..rng.range(1, 2) {
+                set.insert(*rng.pick(&["SendBlocksProof", "SendBlock", "SendBlock", "SendTransactionsProof"]));
+            }
+        }
+        for r in 0..rng.range(8, 45) {
+            if w.dead {
+                break;
+            }
+            if r % 7 == 3 {
+                net.grow(&mut w, 1);
+            }
+            if rng.chance(1, 6) {
+                let chain = &w.chains[net.main];
+                let n = rng.range(1, chain.tip());
+                if rng.chance(1, 2) {
+                    let h: ckb_types::H256 = chain.blocks[n as usize].hash().unpack();
+                    let _ = w.c().rpc_chain().fetch_header(h);
+                } else if let Some(tx) = chain.blocks[n as usize].transactions().into_iter().last() {
+                    let h: ckb_types::H256 = tx.hash().unpack();
+                    let _ = w.c().rpc_tx().fetch_transaction(h);
+                }
+            }
+            w.round(&mut hk);
+        }
+    }
     for _ in 0..steps {
         if w.dead || mon.violated {
             break;
         }
         let ids: HashMap<usize, PeerIndex> = w.peers.iter().enumerate().map(|(i, p)| (i, p.id)).collect();
-        mon.snapshot_all(&w);
-        match rng.below(12) {
+        mon.snapshot_all(&w, &mut hk.times);
+        let ev = if busy {
+            // slower clock, more deliveries and fetch / idle-block ticks: several requests overlap inside one timeout window
+            *rng.pick(&[0u64, 1, 2, 3, 4, 4, 4, 5, 6, 6, 7, 9, 9, 9, 9, 9, 9, 12, 12, 13, 13])
+        } else {
+            rng.below(12)
+        };
+        match ev {
             0 => {
                 let cands: Vec<usize> = (0..w.peers.len()).filter(|i| !w.peers[*i].connected).collect();
                 if let Some(pi) = cands.first().cloned() {
                     let o = w.connect(pi);
                     let ids2: HashMap<usize, PeerIndex> = w.peers.iter().enumerate().map(|(i, p)| (i, p.id)).collect();
                     // the new session has a new id: its "before" is NoPeer
-                    mon.before.insert(pi, Snap { name: "NoPeer".into(), when_sent: None, last_ts: None, other_requests: false, prove: None });
-                    mon.judge(&w, "connected", Some(pi), &o, &ids2);
+                    mon.before.insert(pi, Snap { name: "NoPeer".into(), when_sent: None, last_ts: None, other_requests: false, others: vec![], prove: None });
+                    mon.judge(&w, "connected", Some(pi), &o, &ids2, &hk.times);
                 }
             }
             1 => {
@@ -222,7 +339,7 @@ fn scenario(seed: u64, k: u64, out: &Out) {
                     let o = w.disconnect(pi);
                     let mut o2 = o.clone();
                     o2.disconnected.push((ids[&pi], "user".into()));
-                    mon.judge(&w, "disconnected", Some(pi), &o2, &ids);
+                    mon.judge(&w, "disconnected", Some(pi), &o2, &ids, &hk.times);
                 }
             }
             2 | 3 => {
@@ -231,13 +348,22 @@ fn scenario(seed: u64, k: u64, out: &Out) {
                 let expect: Vec<usize> = mon
                     .before
                     .iter()
-                    .filter(|(pi, s)| w.peers[**pi].connected && (s.when_sent.map(|t| now > t + TIMEOUT_MS).unwrap_or(false) || s.last_ts.map(|t| now > t + TIMEOUT_MS).unwrap_or(false)))
+                    .filter(|(pi, s)| {
+                        w.peers[**pi].connected
+                            && (s.when_sent.map(|t| now > t + TIMEOUT_MS).unwrap_or(false)
+                                || s.last_ts.map(|t| now > t + TIMEOUT_MS).unwrap_or(false)
+                                || s.others.iter().any(|(_, t)| t.map(|t| now > t + TIMEOUT_MS).unwrap_or(false)))
+                    })
                     .map(|(pi, _)| *pi)
                     .collect();
-                let o = w.fire(LC, 0, &mut NoHook);
+                let o = w.fire(LC, 0, &mut hk);
                 out.eval(1);
                 for pi in expect.iter() {
-                    out.cell(&format!("timeout-due|{}", mon.before[pi].name));
+                    let b = &mon.before[pi];
+                    let state_due = b.when_sent.map(|t| now > t + TIMEOUT_MS).unwrap_or(false) || b.last_ts.map(|t| now > t + TIMEOUT_MS).unwrap_or(false);
+                    let due_kinds: Vec<&str> = b.others.iter().filter(|(_, t)| t.map(|t| now > t + TIMEOUT_MS).unwrap_or(false)).map(|(k, _)| *k).collect();
+                    let fresh_kinds: Vec<&str> = b.others.iter().filter(|(_, t)| t.map(|t| now <= t + TIMEOUT_MS).unwrap_or(false)).map(|(k, _)| *k).collect();
+                    out.cell(&format!("timeout-due|{}|state-due={}|due={}|not-yet-due={}", b.name, state_due, due_kinds.join("+"), fresh_kinds.join("+")));
                     if !o.disconnected.iter().any(|(x, _)| *x == ids[pi]) && !mon.violated {
                         mon.violated = true;
                         out.violation("C11.R3", &format!("C11|timeout-without-disconnect|{}", mon.before[pi].name), json!({"scenario": desc, "edges": mon.trace_edges, "now": now, "snap": format!("{:?}", mon.before[pi])}), k);
@@ -245,21 +371,26 @@ fn scenario(seed: u64, k: u64, out: &Out) {
                 }
                 for (id, why) in o.disconnected.iter() {
                     if let Some((pi, _)) = ids.iter().find(|(_, x)| *x == id) {
-                        if !expect.contains(pi) && !mon.before[pi].other_requests && !mon.violated {
+                        // (a request whose send was not observed at the boundary cannot be judged)
+                        if !expect.contains(pi) && !mon.before[pi].others.iter().any(|(_, t)| t.is_none()) && !mon.violated {
                             mon.violated = true;
                             out.violation("C11.R3", &format!("C11|disconnect-without-timeout|{}", mon.before[pi].name), json!({"scenario": desc, "why": why, "edges": mon.trace_edges, "now": now, "snap": format!("{:?}", mon.before[pi])}), k);
                         }
                     }
                 }
-                mon.judge(&w, "refresh", None, &o, &ids);
+                mon.judge(&w, "refresh", None, &o, &ids, &hk.times);
             }
             4 => {
-                let (p, t) = *rng.pick(&[(LC, 1u64), (LC, 2), (P::Filter, 0), (P::Filter, 1), (P::Filter, 2)]);
-                let o = w.fire(p, t, &mut NoHook);
-                mon.judge(&w, "other-timer", None, &o, &ids);
+                let (p, t) = if busy {
+                    *rng.pick(&[(LC, 1u64), (LC, 1), (LC, 2), (LC, 2), (P::Filter, 0), (P::Filter, 0), (P::Filter, 1), (P::Filter, 2)])
+                } else {
+                    *rng.pick(&[(LC, 1u64), (LC, 2), (P::Filter, 0), (P::Filter, 1), (P::Filter, 2)])
+                };
+                let o = w.fire(p, t, &mut hk);
+                mon.judge(&w, "other-timer", None, &o, &ids, &hk.times);
             }
             5 => {
-                let dt = *rng.pick(&[1_000u64, 8_000, 9_000, 59_000, 61_000, 30_000]);
+                let dt = if busy { *rng.pick(&[1_000u64, 3_000, 8_000, 9_000, 20_000, 30_000, 30_000]) } else { *rng.pick(&[1_000u64, 8_000, 9_000, 59_000, 61_000, 30_000]) };
                 w.advance(dt);
             }
             6 => net.grow(&mut w, rng.range(1, 3)),
@@ -269,17 +400,38 @@ fn scenario(seed: u64, k: u64, out: &Out) {
                 if !cands.is_empty() {
                     let pi = *rng.pick(&cands);
                     let m = last_proof[&pi].clone();
-                    let o = w.deliver(pi, Resp { label: Label::Unjudged, ..m }, &mut NoHook);
-                    mon.judge(&w, "SendLastStateProof", Some(pi), &o, &ids);
+                    let o = w.deliver(pi, Resp { label: Label::Unjudged, ..m }, &mut hk);
+                    mon.judge(&w, "SendLastStateProof", Some(pi), &o, &ids, &hk.times);
                 }
             }
             8 => {
                 let pi = rng.pick_idx(w.peers.len());
                 w.peers[pi].mute = !w.peers[pi].mute;
             }
+            12 => {
+                // the user asks for a header or a transaction of the chain (fetched with the next fetch tick)
+                let chain = &w.chains[net.main];
+                let n = rng.range(1, chain.tip());
+                if rng.chance(1, 2) {
+                    let h: ckb_types::H256 = chain.blocks[n as usize].hash().unpack();
+                    let _ = w.c().rpc_chain().fetch_header(h);
+                } else if let Some(tx) = chain.blocks[n as usize].transactions().into_iter().last() {
+                    let h: ckb_types::H256 = tx.hash().unpack();
+                    let _ = w.c().rpc_tx().fetch_transaction(h);
+                }
+            }
+            13 => {
+                // a peer stops / resumes answering one kind of request (the request then stays outstanding)
+                let pi = rng.pick_idx(w.peers.len());
+                let kind = *rng.pick(&["SendBlocksProof", "SendBlock", "SendTransactionsProof"]);
+                let set = hk.kinds.entry(pi).or_default();
+                if !set.remove(kind) {
+                    set.insert(kind);
+                }
+            }
             _ => {
                 // route requests and deliver exactly one queued message
-                w.route(&mut NoHook);
+                w.route(&mut hk);
                 let ready: Vec<usize> = (0..w.peers.len()).filter(|i| w.peers[*i].connected && !w.peers[*i].inbox.is_empty()).collect();
                 if !ready.is_empty() {
                     let pi = *rng.pick(&ready);
@@ -288,8 +440,8 @@ fn scenario(seed: u64, k: u64, out: &Out) {
                     if kind == "SendLastStateProof" {
                         last_proof.insert(pi, m.clone());
                     }
-                    let o = w.deliver(pi, m, &mut NoHook);
-                    mon.judge(&w, &kind, Some(pi), &o, &ids);
+                    let o = w.deliver(pi, m, &mut hk);
+                    mon.judge(&w, &kind, Some(pi), &o, &ids, &hk.times);
                 }
             }
         }
